@@ -1,2 +1,219 @@
--- C08 property theorems (to be written)
-import Nq.Basic
+/-
+  C08 — SMTP transactions are well-sequenced and relaying is gated by policy.
+
+  Model: `Nq.SmtpSession` (commands() line reader, addrparse, bmfcheck, rcpthosts, the smtp_* handlers as
+  `sstep`, the byte-level session `run`), tied to qmail-smtpd.c / commands.c / rcpthosts.c / control.c /
+  constmap.c / cdb_seek.c / ip.c / qmail-newmrh.c by `harness/c08_session.c` and, for the command table,
+  reply texts and the length limit, by the translator (`Nq.Gen.SmtpCmds`).
+
+  A session is observed as its trace: the list of (command, outcome) pairs, an outcome being the replies
+  and, possibly, the envelope handed to the queue.  All statements quantify over every configuration
+  `cfg` and every command list / byte stream, with no bound on length.  The predicates `SubmitOK`, `GateOK`,
+  `MatchSpec`, `BadSender`, `discards` are in `Nq/Spec/SmtpPolicy.lean`; their Boolean forms are what the
+  compiled driver evaluates on the *implementation's* trace.
+-/
+import Nq.Lemmas.SmtpSession
+import Nq.Lemmas.SmtpAddr
+
+namespace Nq.Props.C08
+open Nq Nq.SmtpIn Nq.SmtpSession Nq.SmtpPolicy Nq.Lemmas.Smtp
+
+/-- **Sequencing.** Whenever an envelope is handed to the queue, the trace before that point ends in
+`MAIL` answered 250 (whose parsed address is the envelope sender), followed by events none of which is
+HELO / EHLO / RSET / another MAIL answered 250 / a DATA that got past its checks; the envelope recipients
+are exactly the stored forms of the RCPTs answered 250 in that stretch, in order; and there is at least one. -/
+theorem C08_submit (cfg : Cfg) (cs : List Cmd) (pre post : List Ev) (c : Cmd) (o : Out) (sub : Submit)
+    (ht : trace cfg {} cs = pre ++ (c, o) :: post) (hs : o.submit = some sub) : SubmitOK cfg pre sub := by
+  obtain ⟨s', c', hi, hx⟩ := trace_split cfg pre {} [] cs (c, o) post (inv_init cfg) ht
+  simp only [List.nil_append, Prod.mk.injEq] at hi hx
+  obtain ⟨rfl, rfl⟩ := hx
+  obtain ⟨_, mid, h1, h2, h3⟩ := submit_step cfg pre s' c sub hi hs
+  exact ⟨mid, (openTxnB_iff cfg pre _ mid).1 h1, h2, h3⟩
+
+/-- …and only a DATA command that was answered 354 hands anything to the queue. -/
+theorem C08_submit_only_data (cfg : Cfg) (s : Sess) (c : Cmd) (sub : Submit) (hs : (sstep cfg s c).2.submit = some sub) :
+    (∃ env, c = .data env) ∧ (sstep cfg s c).2.replies.head? = some .go ∧ s.seenmail = true ∧ s.rcptto ≠ [] ∧
+      sub.sender = s.mailfrom ∧ sub.rcpts = s.rcptto := by
+  cases c with
+  | data env =>
+    refine ⟨⟨env, rfl⟩, ?_⟩
+    by_cases h1 : s.seenmail = true
+    · by_cases he : s.rcptto.isEmpty = true
+      · simp [sstep, h1, he] at hs
+      · by_cases ho : env.openFails = true
+        · simp [sstep, h1, he, ho] at hs
+        · cases hb : env.blast <;> simp [sstep, h1, he, ho, hb] at hs ⊢
+          subst hs
+          exact ⟨by simpa using he, rfl, rfl⟩
+    · simp [sstep, h1] at hs
+  | mail arg => cases ha : addrparse cfg arg <;> simp [sstep, ha] at hs
+  | rcpt arg =>
+    by_cases h1 : s.seenmail = true
+    · cases ha : addrparse cfg arg with
+      | none => simp [sstep, h1, ha] at hs
+      | some a =>
+        by_cases hb : s.flagbarf = true
+        · simp [sstep, h1, ha, hb] at hs
+        · cases hr : cfg.relay with
+          | some rc => simp [sstep, h1, ha, hb, hr] at hs
+          | none => by_cases hm : rcpthostsMatch cfg a = true <;> simp [sstep, h1, ha, hb, hr, hm] at hs
+    · simp [sstep, h1] at hs
+  | _ => simp [sstep] at hs
+
+/-- **Discarding.** HELO, EHLO, RSET and a DATA that got past its checks leave no transaction open:
+whatever follows, nothing is submitted and no RCPT is accepted until another MAIL is answered 250
+(a MAIL answered 250 starts a new transaction with no recipients). State-level form. -/
+theorem C08_discard (cfg : Cfg) (s : Sess) (c : Cmd) (hd : discards (c, (sstep cfg s c).2) = true) :
+    (∃ a, c = .mail a ∧ (sstep cfg s c).1.seenmail = true ∧ (sstep cfg s c).1.rcptto = [] ∧
+       addrparse cfg a = some (sstep cfg s c).1.mailfrom) ∨
+    (sstep cfg s c).1.seenmail = false := by
+  cases c with
+  | mail arg =>
+    cases ha : addrparse cfg arg with
+    | none => simp [discards, sstep, ha] at hd
+    | some a => exact Or.inl ⟨arg, rfl, by simp [sstep, ha]⟩
+  | data env =>
+    right
+    by_cases h1 : s.seenmail = true
+    · by_cases he : s.rcptto.isEmpty = true
+      · simp [discards, sstep, h1, he] at hd
+      · by_cases ho : env.openFails = true
+        · simp [sstep, h1, he, ho]
+        · cases hb : env.blast <;> simp [sstep, h1, he, ho, hb]
+    · simp [discards, sstep, h1] at hd
+  | helo => right; simp [sstep]
+  | ehlo => right; simp [sstep]
+  | rset => right; simp [sstep]
+  | rcpt arg => simp [discards] at hd
+  | help => simp [discards] at hd
+  | noop => simp [discards] at hd
+  | vrfy => simp [discards] at hd
+  | unimpl => simp [discards] at hd
+  | quit => simp [discards] at hd
+
+/-- while no transaction is open, DATA is refused and RCPT is refused -/
+theorem C08_closed (cfg : Cfg) (s : Sess) (h : s.seenmail = false) (env : DataEnv) (arg : Bytes) :
+    sstep cfg s (.data env) = (s, { replies := [.wantmail] }) ∧ sstep cfg s (.rcpt arg) = (s, { replies := [.wantmail] }) := by
+  simp [sstep, h]
+
+/-- **Gating, one step.** In any state, RCPT is answered 250 exactly when a transaction is open, the
+sender was not flagged, the argument parses (length limit included) and either RELAYCLIENT is set or
+rcpthosts() accepts the parsed address; the address stored is the parsed one followed by $RELAYCLIENT. -/
+theorem C08_gate_step (cfg : Cfg) (s : Sess) (arg : Bytes) :
+    ((sstep cfg s (.rcpt arg)).2.replies = [.rcptok] ↔
+      s.seenmail = true ∧ s.flagbarf = false ∧
+        ∃ a, addrparse cfg arg = some a ∧ (cfg.relay.isSome = true ∨ rcpthostsMatch cfg a = true)) ∧
+    ((sstep cfg s (.rcpt arg)).2.replies = [.rcptok] →
+      ∃ a, addrparse cfg arg = some a ∧
+        (sstep cfg s (.rcpt arg)).1 = { s with rcptto := s.rcptto ++ [a ++ relaySuffix cfg] }) :=
+  ⟨gate_step cfg s arg, gate_stored cfg s arg⟩
+
+/-- **Gating, whole sessions.** A RCPT anywhere in a session is answered 250 *iff* the trace before it
+ends in an open transaction whose sender is not on the bad-sender list, its argument parses to an address
+within the length limit (local IP literals already replaced), and RELAYCLIENT is set or the address matches
+the recipient-host lists. -/
+theorem C08_gate (cfg : Cfg) (hl : MoreLower cfg) (cs : List Cmd) (pre post : List Ev) (arg : Bytes) (o : Out)
+    (ht : trace cfg {} cs = pre ++ (.rcpt arg, o) :: post) : o.replies = [.rcptok] ↔ GateOK cfg pre arg := by
+  obtain ⟨s', c', hi, hx⟩ := trace_split cfg pre {} [] cs (.rcpt arg, o) post (inv_init cfg) ht
+  simp only [List.nil_append, Prod.mk.injEq] at hi hx
+  obtain ⟨rfl, rfl⟩ := hx
+  exact gate_inv cfg hl pre s' arg hi
+
+/-- the lower-case hypothesis holds for every configuration read from files: qmail-newmrh lower-cases -/
+theorem C08_moreLower (me : Bytes) (rh more bmf lip relay : Option Bytes) (ipme : List Ip) (now qp : Nat) :
+    MoreLower (Cfg.ofFiles me rh more bmf lip relay ipme now qp) := ofFiles_moreLower me rh more bmf lip relay ipme now qp
+
+/-- **Recipient-host matching.** rcpthosts() accepts an address iff there is no rcpthosts file, or the
+address has no `@`, or some entry of rcpthosts / morercpthosts.cdb equals the domain ignoring case or
+starts with a dot and is a suffix of the domain ignoring case. An empty domain is never covered. -/
+theorem C08_match_spec (cfg : Cfg) (hl : MoreLower cfg) (a : Bytes) : rcpthostsMatch cfg a = true ↔ MatchSpec cfg a :=
+  match_iff cfg hl a
+
+/-- **Bad senders.** bmfcheck() flags a sender iff an entry equals the address or `@domain`, ignoring case. -/
+theorem C08_bmf_spec (cfg : Cfg) (a : Bytes) : bmfcheck cfg a = true ↔ BadSender cfg a := bmf_iff cfg a
+
+/-- **Length limit.** What addrparse accepts has at most 899 bytes (900 with its NUL)… -/
+theorem C08_len (cfg : Cfg) (arg a : Bytes) (h : addrparse cfg arg = some a) : a.length < 900 := by
+  unfold addrparse at h
+  split at h
+  · simp at h
+  · simp at h; subst h
+    have : Gen.ADDRMAX = 900 := rfl
+    omega
+
+/-- …and anything longer is a syntax error for MAIL and for RCPT alike, leaving the state untouched. -/
+theorem C08_len_refused (cfg : Cfg) (s : Sess) (arg : Bytes) (h : 900 ≤ (addrCore cfg arg).length) (hm : s.seenmail = true) :
+    addrparse cfg arg = none ∧ sstep cfg s (.mail arg) = (s, { replies := [.syntax] }) ∧
+      sstep cfg s (.rcpt arg) = (s, { replies := [.syntax] }) := by
+  have : addrparse cfg arg = none := by
+    unfold addrparse
+    have : Gen.ADDRMAX = 900 := rfl
+    simp; omega
+  simp [sstep, this, hm]
+
+/-- **Local IP literals are replaced inside addrparse**, hence before bmfcheck / rcpthosts see the address:
+`box@[d.d.d.d]` with `d.d.d.d` (octets taken modulo 256) one of this host's addresses becomes
+`box@localiphost`; this is the only thing `lipSubst` ever does. -/
+theorem C08_liphost (cfg : Cfg) (h box d1 d2 d3 d4 : Bytes) (hh : cfg.liphost = some h)
+    (h1 : allDigits d1 = true) (h2 : allDigits d2 = true) (h3 : allDigits d3 = true) (h4 : allDigits d4 = true)
+    (hip : cfg.ipme.contains (numVal d1, numVal d2, numVal d3, numVal d4) = true) :
+    lipSubst cfg (box ++ AT :: ipLit d1 d2 d3 d4) = box ++ AT :: h :=
+  lipSubst_literal cfg h box d1 d2 d3 d4 hh h1 h2 h3 h4 hip
+
+theorem C08_liphost_only (cfg : Cfg) (a : Bytes) :
+    lipSubst cfg a = a ∨ ∃ h p d ip, cfg.liphost = some h ∧ splitLastAt a = some (p, d) ∧ scanBracket d = some (ip, []) ∧
+      cfg.ipme.contains ip = true ∧ lipSubst cfg a = p ++ h :=
+  lipSubst_cases cfg a
+
+/-- **Every byte stream is a command sequence**: the byte-level session (line reader, verb table, DATA
+swallowing its message through `dblast` of C05) is `trace` of some command list, so the theorems above
+hold for every input stream, pipelined or not, with CRLF or bare-LF line ends. -/
+theorem C08_run_is_trace (cfg : Cfg) (qq : QQ) (inp : Bytes) :
+    run cfg qq inp = trace cfg {} ((run cfg qq inp).map Prod.fst) :=
+  runFuel_is_trace cfg qq _ {} inp
+
+/-- **The oracle is the theorem.** The Boolean checkers evaluated by the driver are equivalent to the
+declarative predicates, and they accept every trace of the model. -/
+theorem C08_oracle_iff (cfg : Cfg) (pre : List Ev) (sub : Submit) (arg : Bytes) :
+    (submitOKB cfg pre sub = true ↔ SubmitOK cfg pre sub) ∧ (gateOKB cfg pre arg = true ↔ GateOK cfg pre arg) ∧
+    (matchSpecB cfg arg = true ↔ MatchSpec cfg arg) ∧ (badSenderB cfg arg = true ↔ BadSender cfg arg) :=
+  ⟨submitOKB_iff cfg pre sub, gateOKB_iff cfg pre arg, matchSpecB_iff cfg arg, badSenderB_iff cfg arg⟩
+
+theorem C08_oracle_accepts_model (cfg : Cfg) (hl : MoreLower cfg) (qq : QQ) (inp : Bytes) :
+    traceBad cfg [] (run cfg qq inp) 0 = none := by
+  rw [C08_run_is_trace]
+  exact traceBad_none cfg hl _ {} [] 0 (inv_init cfg)
+
+/-- the command table as the model sees it (the table itself is regenerated from qmail-smtpd.c) -/
+theorem C08_verbs :
+    verbOf [77, 65, 73, 76] = .mail ∧ verbOf [114, 99, 112, 116] = .rcpt ∧ verbOf [68, 97, 84, 97] = .data ∧
+    verbOf [82, 83, 69, 84] = .rset ∧ verbOf [72, 69, 76, 79] = .helo ∧ verbOf [69, 72, 76, 79] = .ehlo ∧
+    verbOf [81, 85, 73, 84] = .quit ∧ verbOf [] = .unimpl ∧ verbOf [77, 65, 73, 76, 70] = .unimpl := by
+  decide
+
+/-! ### Non-vacuity -/
+
+/-- rcpthosts = {local.example → "l.e", ".w.e"}; a session MAIL, RCPT ok, RCPT foreign, DATA submits exactly one recipient -/
+def cfgEx : Cfg := { rh := some [[108, 46, 101], [46, 119, 46, 101]], bmf := some [[64, 98]] }
+
+-- "<s@x>", "<u@L.E>" (upper case), "<u@a.W.e>" (wildcard), "<u@w.e>" (not covered), "<u@r>"
+example :
+    (trace cfgEx {} [.mail [60, 115, 64, 120, 62], .rcpt [60, 117, 64, 76, 46, 69, 62], .rcpt [60, 117, 64, 97, 46, 87, 46, 101, 62],
+        .rcpt [60, 117, 64, 119, 46, 101, 62], .rset, .data {}, .mail [60, 115, 64, 120, 62], .rcpt [60, 117, 64, 114, 62],
+        .rcpt [117], .data {}]).map (fun x => (x.2.replies, x.2.submit)) =
+      [([.mailok], none), ([.rcptok], none), ([.rcptok], none), ([.nogateway], none), ([.flushed], none), ([.wantmail], none),
+       ([.mailok], none), ([.nogateway], none), ([.rcptok], none),
+       ([.go, .accepted], some ⟨[115, 64, 120], [[117]], []⟩)] := by decide
+
+-- sender "<s@B>" is on the bad-sender list (@b): every RCPT is refused
+example : (trace cfgEx {} [.mail [60, 115, 64, 66, 62], .rcpt [60, 117, 64, 108, 46, 101, 62]]).map (fun x => x.2.replies) =
+    [[.mailok], [.bmf]] := by decide
+
+-- `"a b"\@x@[127.0.0.1]` with localiphost "l.e": quotes and backslash removed, literal replaced
+example : addrparse { liphost := some [108, 46, 101], ipme := [(127, 0, 0, 1)] }
+    [60, 64, 114, 58, 34, 97, 32, 98, 34, 92, 64, 120, 64, 91, 49, 50, 55, 46, 48, 46, 48, 46, 49, 93, 62] =
+    some [97, 32, 98, 64, 120, 64, 108, 46, 101] := by decide
+
+example : MoreLower cfgEx := by intro ks h; simp [cfgEx] at h
+
+end Nq.Props.C08
